@@ -48,6 +48,14 @@ Definition entry_c18_meminfo (args : list N) : list N :=
   | _ => []
   end.
 
+Definition entry_c18_meminfo_spec (args : list N) : list N :=
+  match args with
+  | n :: rest =>
+      let l := meminfo_list_spec (dec_triples (cnt n rest) rest) in
+      N.of_nat (length l) :: flat_map (fun m => [mi_base m; mi_alloc_base m; mi_alloc_prot m; mi_size m; mi_state m; mi_prot m; mi_type m]) l
+  | _ => []
+  end.
+
 Definition dec_key (k : N) : cpukey :=
   if k =? 0 then K_processor else if k =? 1 then K_model else if k =? 2 then K_stepping else if k =? 3 then K_family else if k =? 4 then K_vendor else K_other.
 Fixpoint dec_cpulines (n : nat) (l : list N) : list cpuline :=
